@@ -486,4 +486,89 @@ theorem wellGrouped_of_rightGrouped (t : BTree) (h : RightGrouped t)
             simp [BTree.inorder]
           exact hra (hpo _ hmem h3.symm)
 
+/-! ### uniqueness -/
+
+/-- in a right-grouped tree every operator binds at least as tightly as the top one -/
+theorem rightGrouped_ops_le (t : BTree) (h : RightGrouped t) :
+    ∀ p ∈ t.inorder.2, prio p.1 ≤ t.topPrio := by
+  induction t with
+  | leaf e => intro p hp; simp [BTree.inorder] at hp
+  | node o l r ihl ihr =>
+    obtain ⟨hl, hr, h1, h2⟩ := h
+    intro p hp
+    simp only [BTree.inorder, List.mem_append, List.mem_cons] at hp
+    simp only [BTree.topPrio]
+    rcases hp with hp | rfl | hp
+    · have := ihl hl p hp; omega
+    · exact Nat.le_refl _
+    · have := ihr hr p hp; omega
+
+/-- the right-grouped tree of a chain is unique: its root is the first operator of maximal
+priority number -/
+theorem rightGrouped_unique (t1 t2 : BTree) (h1 : RightGrouped t1) (h2 : RightGrouped t2)
+    (hin : t1.inorder = t2.inorder) : t1 = t2 := by
+  induction t1 generalizing t2 with
+  | leaf e =>
+    cases t2 with
+    | leaf e2 => simp [BTree.inorder] at hin; rw [hin]
+    | node o l r =>
+      have := congrArg (fun p => p.2.length) hin
+      simp [BTree.inorder] at this
+  | node o1 l1 r1 ihl ihr =>
+    cases t2 with
+    | leaf e2 =>
+      have := congrArg (fun p => p.2.length) hin
+      simp [BTree.inorder] at this
+    | node o2 l2 r2 =>
+      obtain ⟨hl1, hr1, ha1, hb1⟩ := h1
+      obtain ⟨hl2, hr2, ha2, hb2⟩ := h2
+      simp only [BTree.inorder, Prod.mk.injEq] at hin
+      obtain ⟨hfst, hsnd⟩ := hin
+      have ol1 := rightGrouped_ops_le l1 hl1
+      have or1 := rightGrouped_ops_le r1 hr1
+      have ol2 := rightGrouped_ops_le l2 hl2
+      have or2 := rightGrouped_ops_le r2 hr2
+      -- the two splits of the operator list coincide
+      rcases List.append_eq_append_iff.1 hsnd with ⟨m, hm1, hm2⟩ | ⟨m, hm1, hm2⟩
+      · -- l2 ops = l1 ops ++ m,  (o1,_) :: r1 ops = m ++ (o2,_) :: r2 ops
+        cases m with
+        | nil =>
+          simp only [List.nil_append, List.cons.injEq, Prod.mk.injEq] at hm2
+          simp only [List.append_nil] at hm1
+          obtain ⟨⟨ho, hb⟩, hy⟩ := hm2
+          subst ho
+          have e1 : l1 = l2 := ihl l2 hl1 hl2 (Prod.ext hfst hm1.symm)
+          have e2 : r1 = r2 := ihr r2 hr1 hr2 (Prod.ext hb hy)
+          rw [e1, e2]
+        | cons x m' =>
+          exfalso
+          simp only [List.cons_append, List.cons.injEq] at hm2
+          obtain ⟨hx, hrest⟩ := hm2
+          -- (o1, _) is among l2's operators, (o2, _) among r1's
+          have hx2 : (o1, r1.inorder.1) ∈ l2.inorder.2 := by rw [hm1, ← hx]; simp
+          have hy1 : (o2, r2.inorder.1) ∈ r1.inorder.2 := by rw [hrest]; simp
+          have := ol2 _ hx2
+          have := or1 _ hy1
+          simp only at *
+          omega
+      · cases m with
+        | nil =>
+          simp only [List.nil_append, List.cons.injEq, Prod.mk.injEq] at hm2
+          simp only [List.append_nil] at hm1
+          obtain ⟨⟨ho, hb⟩, hy⟩ := hm2
+          subst ho
+          have e1 : l1 = l2 := ihl l2 hl1 hl2 (Prod.ext hfst hm1)
+          have e2 : r1 = r2 := ihr r2 hr1 hr2 (Prod.ext hb.symm hy.symm)
+          rw [e1, e2]
+        | cons x m' =>
+          exfalso
+          simp only [List.cons_append, List.cons.injEq] at hm2
+          obtain ⟨hx, hrest⟩ := hm2
+          have hx1 : (o2, r2.inorder.1) ∈ l1.inorder.2 := by rw [hm1, ← hx]; simp
+          have hy2 : (o1, r1.inorder.1) ∈ r2.inorder.2 := by rw [hrest]; simp
+          have := ol1 _ hx1
+          have := or2 _ hy2
+          simp only at *
+          omega
+
 end Rfsm.Expr
